@@ -14,3 +14,4 @@ for m in "$@"; do
     fi
   done
 done
+lake build 2>&1 | grep -E "error|Build completed" | head -5
